@@ -203,6 +203,25 @@ def plan(tier, seed, args):
                         pre.append({"wparams": draw(r2), "sched": ps})
                     c["pre_runs"] = pre
                 cases.append(c)
+    # team-size sweeps: routines that partition their work by hand from the team size give a
+    # result that is a function of (problem size, team size) alone; every team size from 2 to
+    # 24 on a handful of seeded sizes costs little in the call-level build and removes the
+    # luck from "this size with that team"
+    sweep = {"sdmx": 10, "misc_direct": 6, "legacy_sdmx": 4, "debug_numint": 3, "fft_wrapper": 3} if tier == "quick" else {"sdmx": 150, "misc_direct": 60, "legacy_sdmx": 40, "debug_numint": 40, "fft_wrapper": 40, "plan_coefs": 40, "evaluators": 40}
+    if args.cases is None:
+        for wl, n_sw in sweep.items():
+            draw = W.WORKLOADS[wl][0]
+            for i in range(n_sw):
+                r = Rng(derive(seed, PROP, wl, "sweep", i))
+                wp = draw(r)
+                if wl == "sdmx":
+                    wp["mol"] = r.choice(["He", "H2", "LiH"])
+                    wp["basis"] = r.choice(["sto-3g", "6-31g"])
+                    wp["nset"] = 1
+                scheds = []
+                for t in range(2, 25):
+                    scheds.append({"nthreads": t, "strategy": r.choice(["rtc_id", "reverse", "rtc_perm"]), "chunk_shuffle": int(r.chance(0.3)), "poison": r.choice(POISONS), "sseed": r.below(2**62), "preempt_mean": 0, "window_pct": 100})
+                cases.append({"workload": wl, "wparams": wp, "scheds": scheds, "group": "sim", "sweep": True})
     # long cases first
     order = {"e2e": 0, "nldf_gen": 1, "nldf_grad": 2}
     cases.sort(key=lambda c: order.get(c["workload"], 5))
@@ -481,6 +500,8 @@ def _run_case(spec):
                 return {"harness_error": "schedule-trace replay did not reproduce the recorded execution for %s sched=%s (diverged=%s steps %s/%s)" % (wl, json.dumps(sched), st_r.get("replay_diverged"), st_r.get("steps"), st.get("steps"))}
             stats["trace_replays_verified"] += 1
             stats["trace_segments_replayed"] += len(tr["segs"])
+        if spec.get("sweep"):
+            stats["team_size_sweep_runs"] += 1
         stats["strategy_" + sched["strategy"]] += 1
         stats["team_%d" % sched["nthreads"]] += 1
         for f in ("regions", "regions_multi", "steps", "accesses", "switches", "preemptions", "barriers", "chunks", "chunk_shuffles", "criticals", "crit_waits", "singles", "mallocs", "poisoned_bytes", "atomics", "starved_regions"):
@@ -740,6 +761,7 @@ def coverage(done, tier):
             "runs_with_chunk_shuffle": int(tot["runs_with_chunk_shuffle"]),
             "runs_with_team_below_max_threads": int(tot["runs_with_team_below_max_threads"]),
             "runs_with_thread_count_changed_between_calls": int(tot["runs_with_thread_count_changed_between_calls"]),
+            "team_size_sweep_runs_every_team_2_to_24": int(tot["team_size_sweep_runs"]),
             "race_detector_runs": int(tot["detector_runs"]),
             "race_detector_conflicting_region_functions": int(tot["detector_conflicting_functions"]),
             "race_directed_runs": int(tot["directed_runs"]),
